@@ -12,14 +12,14 @@ import (
 )
 
 func init() {
-	register(&Prop{ID: "C19", Run: runC19,
+	register(&Prop{ID: "C19", Run: runC19, NeedDeps: true,
 		Technique: "static analysis: guard-propagating call-graph reachability (go/ssa + call graph) from the non-evaluating entry points to side-effect sinks, with boolean-parameter polarity inherited from all call sites",
 		Decided: []string{
-			"from LoadYAML / LoadMetadata / LoadWithoutEval, the read-only DAGStore methods and the daemon's entry reader, no call path reaches process creation, environment mutation or file-system mutation unless some call site on the path is dominated by an evaluation licence (`!noEval`, or a boolean parameter that every caller binds to `!noEval`) (C19.sinks)",
+			"from LoadYAML / LoadMetadata / LoadWithoutEval, the read-only DAGStore methods and the daemon's entry reader, no call path - continued into library functions through their static calls (e.g. a shell-words parser that runs backtick substitutions) - reaches process creation, environment mutation or file-system mutation unless some call site on the path is dominated by an evaluation licence (`!noEval`, or a boolean parameter that every caller binds to `!noEval`) (C19.sinks)",
 			"the evaluating loader dag.Load is called only from command bodies in package cmd (C19.eval-loader-callers)",
 		},
 		NotDec: []string{
-			"effects inside dependencies reached by reflection (yaml, mapstructure, mergo)",
+			"effects inside dependencies reached by reflection or other dynamic calls (yaml, mapstructure, mergo); library functions are followed through their static calls only",
 			"calls through library interfaces and function values other than local closures, bound methods and the repository's function tables (resolved by the call graph)",
 		},
 		Assume: []string{"the sink table (os/exec command construction and start, os.StartProcess, syscall exec, os.Setenv/Unsetenv/Clearenv/Chdir) is complete for this code base; file-system mutation (e.g. creating the DAGs directory on first listing) is outside the property's statement and not a sink"},
@@ -39,6 +39,7 @@ type c19 struct {
 	e        *Env
 	paramMem map[*ssa.Parameter]int // 0 unknown, 1 eval-polarity, 2 not
 	pathTo   map[*ssa.Function]string
+	depMem   map[*ssa.Function]*depRes
 }
 
 func isNoEvalRead(e *Env, v ssa.Value) bool {
@@ -114,6 +115,59 @@ func (c *c19) licensed(in ssa.Instruction) bool {
 		}
 	}
 	return false
+}
+
+// depReach: a sink reachable from a dependency function through static calls
+// (closures included), with one path. Dynamic calls inside libraries are not
+// followed (reflection-driven decoders would otherwise reach everything).
+func (c *c19) depReach(from *ssa.Function) (string, []string) {
+	if c.depMem == nil {
+		c.depMem = map[*ssa.Function]*depRes{}
+	}
+	if r, ok := c.depMem[from]; ok {
+		return r.sink, r.path
+	}
+	res := &depRes{}
+	c.depMem[from] = res
+	type item struct {
+		f    *ssa.Function
+		path []string
+	}
+	seen := map[*ssa.Function]bool{from: true}
+	queue := []item{{from, []string{ShortFn(from)}}}
+	for n := 0; len(queue) > 0 && n < 4000; n++ {
+		it := queue[0]
+		queue = queue[1:]
+		for _, g := range ir.WithClosures(it.f) {
+			for _, b := range g.Blocks {
+				for _, in := range b.Instrs {
+					ci, ok := in.(ssa.CallInstruction)
+					if !ok {
+						continue
+					}
+					name := ir.CalleeName(ci.Common())
+					if _, isSink := c19Sinks[name]; isSink {
+						res.sink, res.path = name, it.path
+						return res.sink, res.path
+					}
+					sc := ci.Common().StaticCallee()
+					if sc == nil || sc.Blocks == nil || seen[sc] || c.e.P.Funcs[sc] {
+						continue
+					}
+					seen[sc] = true
+					if len(it.path) < 8 {
+						queue = append(queue, item{sc, append(append([]string{}, it.path...), ShortFn(sc))})
+					}
+				}
+			}
+		}
+	}
+	return "", nil
+}
+
+type depRes struct {
+	sink string
+	path []string
 }
 
 func runC19(e *Env) {
@@ -215,6 +269,13 @@ func runC19(e *Env) {
 						continue
 					}
 					if sc := com.StaticCallee(); sc != nil {
+						if !e.P.Funcs[sc] {
+							// a library function: does it reach a sink through static calls?
+							if sink, path := c.depReach(sc); sink != "" {
+								viols = append(viols, viol{x, c19Sinks[sink] + " (inside the library: " + strings.Join(path, " → ") + " → " + sink + ")", f})
+							}
+							continue
+						}
 						push(sc, ShortFn(f))
 						continue
 					}
